@@ -43,6 +43,20 @@ def make_sp(cfg):
     if host == "managed":
         ns["__annotations__"] = {"u": int, "p": int}
         ns["_prepare_p"] = lambda self, v: v + 100 if isinstance(v, int) and not isinstance(v, bool) else v
+    if cfg.get("shared"):
+        # the SAME property object reaches the host through a plain mixin that a sibling spec class (managing the attribute
+        # differently: str, other preparer) and a plain class also inherit, and they used it first: none of the host's business
+        del ns["p"]
+        mixin = type("Mixin", (), {"p": prop})
+        sib = spec_class(type("Sibling", (mixin,), {"__annotations__": {"u": int, "p": str}, "u": 2,
+                                                    "_prepare_p": lambda self, v: str(v) + "!"}))
+        plain = type("PlainSibling", (mixin,), {"u": 1})
+        for other in (sib, plain):
+            try:
+                other().p
+            except Exception:  # noqa: BLE001
+                pass
+        return spec_class(type("Host", (mixin,), ns))
     return spec_class(type("Host", (), ns))
 
 
@@ -126,11 +140,14 @@ def run_sp(job):
     rnd = random.Random(sd)
     out = []
     for cfg in cfgs:
-        cls = make_sp(cfg)
-        for path in itertools.product(acts, repeat=L):
-            out.append(sp_path(cls, cfg, list(path)))
-        for _ in range(n_random):
-            out.append(sp_path(cls, cfg, [rnd.choice(acts) for _ in range(rlen)]))
+        for shared in ((False, True) if cfg["host"] != "plain" else (False,)):
+            cls = make_sp(dict(cfg, shared=shared))
+            for path in itertools.product(acts, repeat=L):
+                out.append(sp_path(cls, cfg, list(path)))
+                out[-1]["shared"] = shared
+            for _ in range(n_random):
+                out.append(sp_path(cls, cfg, [rnd.choice(acts) for _ in range(rlen)]))
+                out[-1]["shared"] = shared
     return out
 
 
